@@ -23,6 +23,62 @@ def _oracle_verdict(n):
     return None
 
 
+import copy
+
+
+def _closure(prog, k):
+    names = {st['r']: i for i, st in enumerate(prog)}
+    seen, todo = set(), [k]
+
+    def refs(v):
+        if isinstance(v, dict):
+            if '$' in v:
+                yield v['$']
+            for w in v.values():
+                yield from refs(w)
+        elif isinstance(v, list):
+            for w in v:
+                yield from refs(w)
+    while todo:
+        i = todo.pop()
+        if i in seen:
+            continue
+        seen.add(i)
+        for n in refs([prog[i].get('a', []), prog[i].get('kw', {})]):
+            if n in names:
+                todo.append(names[n])
+    return seen
+
+
+def _drop_steps(job, cid, drop):
+    """remove steps (indices) of client cid, renumbering layout keys and order"""
+    j = copy.deepcopy(job)
+    prog = j['clients'][cid]
+    keep = [i for i in range(len(prog)) if i not in drop]
+    remap = {old: new for new, old in enumerate(keep)}
+    j['clients'][cid] = [prog[i] for i in keep]
+    lay = {}
+    for key, kind in (j.get('layout') or {}).items():
+        c, kk, a = key.split(':')
+        if c != cid:
+            lay[key] = kind
+        elif int(kk) in remap:
+            lay['%s:%d:%s' % (c, remap[int(kk)], a)] = kind
+    j['layout'] = lay
+    # rebuild order: remove the matching occurrences
+    cnt = 0
+    order = []
+    for c in j['order']:
+        if c == cid:
+            if cnt in remap:
+                order.append(c)
+            cnt += 1
+        else:
+            order.append(c)
+    j['order'] = order
+    return j, remap
+
+
 def frames_by_client(res):
     done = collections.defaultdict(dict)
     begun = None
@@ -68,7 +124,14 @@ def upstream_layout(job, cid, k):
     return sorted(out), sorted(seen)
 
 
-def evaluate(pool, lane, job, use_ref_for_session=False):
+def OPS_NO_COMPARE(op):
+    from dsim import ops
+    ops._load()
+    od = ops.OPS.get(op)
+    return True if od is None else od.no_compare
+
+
+def evaluate(pool, lane, job, use_ref_for_session=False, nclosure=2):
     """Run the session on the lane's session zygote and every client alone on the lane's reference
     zygote; return (findings, stats).  A finding: {'class', 'cid', 'k', 'op', 'message', 'detail'}."""
     ref_z, ses_z = pool.lanes[lane]
@@ -95,6 +158,32 @@ def evaluate(pool, lane, job, use_ref_for_session=False):
             k = rbegun[1] if rbegun else -1
             findings.append({'class': 'crash', 'cid': cid, 'k': k, 'op': rbegun[2] if rbegun else '?', 'cause': 'intrinsic',
                              'message': 'pristine run of the client alone died on signal %s in %s' % (r['signal'], rbegun)})
+    # closure references: the pristine run of the whole client still shares the client's *own* earlier calls with the
+    # session, so a cache collision between two calls of one client would be invisible; for up to `nclosure` steps
+    # per client the step is also evaluated with nothing but its dataflow closure in another pristine fork
+    for cid in sorted(job['clients']):
+        if cid == 'cx' or not nclosure:
+            continue
+        prog = job['clients'][cid]
+        refd = refs[cid][0]
+        cand = [k for k in range(len(prog)) if k in refd and not refd[k].get('skipped')
+                and len(_closure(prog, k)) < k + 1 and OPS_NO_COMPARE(prog[k]['op']) is False]
+        # prefer late steps (most history before them), spread deterministically
+        cand = cand[::-1][:nclosure]
+        for k in cand:
+            up = _closure(prog, k)
+            solo = G.solo_job(job, cid)
+            cj, remap = _drop_steps(solo, cid, set(range(len(prog))) - up)
+            r = ref_z.run(cj)
+            cd, cb, ce = frames_by_client(r)
+            stats['closure_refs'] += 1
+            kk = remap[k]
+            if kk in cd[cid] and not cd[cid][kk].get('skipped'):
+                d = SE.nf_diff(refd[k]['nf'], cd[cid][kk]['nf'])
+                if d:
+                    findings.append({'class': d[0], 'cid': cid, 'k': k, 'op': prog[k]['op'], 'layout': [], 'cause': 'own-history',
+                                     'message': '%s (step %d of %s) alone in a pristine interpreter with only its inputs differs from the same call after the '
+                                                'client\'s own earlier calls: %s' % (prog[k]['op'], k, cid, d[1])})
     for f in res['frames']:
         if f.get('harness'):
             raise H.HarnessFailure('executor: %s' % f['harness'])
@@ -130,6 +219,12 @@ def evaluate(pool, lane, job, use_ref_for_session=False):
             if f.get('alias'):
                 findings.append({'class': 'alias', 'cid': cid, 'k': k, 'op': f['op'], 'args': f['alias'],
                                  'message': '%s returned an array sharing memory with argument(s) %s' % (f['op'], f['alias'])})
+            if f['op'].startswith('C19.') and f['nf'][0] == 'exc':
+                # the oracle ops call dadi with well-formed inputs (>= k+2 bootstraps, positive models): an exception
+                # inside them is dadi failing, and it would be invisible to the pristine comparison when the cause lies
+                # within the same client's own history
+                findings.append({'class': 'oracle-raises', 'cid': cid, 'k': k, 'op': f['op'], 'layout': [],
+                                 'message': '%s raised %s: %s' % (f['op'], f['nf'][1], f.get('exc_msg'))})
             ov = _oracle_verdict(f['nf'])
             if ov is not None:
                 stats['oracle_ops'] += 1
